@@ -126,6 +126,8 @@ def run_property(prop, spec, tier, seed, only=None, jobs=10):
         th.join()
     if model == "events_once" and not only:
         validate_sequential(res, mir_path, prop, spec, tier, jobs)
+    if model == "events" and not only:
+        validate_sequential_events(res, mir_path, extra, prop, tier, jobs)
     fnset = set()
     for (name, wargs), d in zip(scs, results):
         v = d.get("verdict")
@@ -221,6 +223,103 @@ def validate_sequential(res, mir_path, prop, spec, tier, jobs):
     res["samples"].append(dict(engine="mirproto", kind="sequential translation validation", cases=len(cases), agreeing=ok,
                                compared=list(keys), example=dict(scenario="S:%s|R:%s" % (cases[0][0], ",".join(cases[0][1])), order=cases[0][2], model=out[0][0].get("final"), native=out[0][1])))
     print("[mirproto] sequential validation against the real code: %d/%d orders agree" % (ok, len(cases)), flush=True)
+
+
+def validate_sequential_events(res, mir_path, extra, prop, tier, jobs):
+    """Same idea for the reset events: thread programs executed item by item in a pinned global order,
+    in the model and on the real events (native/events_seq)."""
+    import itertools
+    import shutil
+    from mirproto import events_model as EV
+    nd = os.path.join(VERIF, "native", "events_seq")
+    tdir = os.path.join(VERIF, ".cache", "native", "events_seq")
+    try:
+        shutil.copyfile(os.path.join(M.REPO, "Cargo.lock"), os.path.join(nd, "Cargo.lock"))
+        env = dict(os.environ)
+        env["CARGO_NET_OFFLINE"] = "true"
+        env.pop("RUSTFLAGS", None)
+        b = subprocess.run(["cargo", "build", "-q", "--offline", "--target-dir", tdir], cwd=nd, env=env, capture_output=True, text=True, timeout=1200)
+        exe = os.path.join(tdir, "debug", "folo_verif_events_seq")
+        if b.returncode != 0 or not os.path.exists(exe):
+            res["noverdict"].append(("sequential-validation", "native build failed: " + b.stderr[-400:]))
+            return
+    except Exception as e:  # noqa: BLE001
+        res["noverdict"].append(("sequential-validation", str(e)[-400:]))
+        return
+
+    def item_txt(it):
+        if isinstance(it, str):
+            return it
+        return "p%d.%d" % (it[1], it[2]) if it[0] == "poll" else "d%d" % it[1]
+    cases = []
+    for flavor in ("auto", "manual"):
+        progs = getattr(EV, "%s_%s" % (flavor.upper(), "QUICK" if tier == "quick" else "THOROUGH"))
+        for p in progs:
+            T = len(p)
+            orders = []
+            for perm in itertools.permutations(range(T)):
+                orders.append([t for t in perm for _ in p[t]])
+            rr = []
+            for j in range(max(len(x) for x in p)):
+                for t in range(T):
+                    if j < len(p[t]):
+                        rr.append(t)
+            orders.append(rr)
+            for o in orders:
+                cases.append((flavor, p, o))
+    out = [None] * len(cases)
+    sem = threading.Semaphore(jobs)
+
+    def go(i, flavor, p, o):
+        with sem:
+            d = worker(["scenario", "--mir", mir_path, "--prop", prop, "--model", "events_" + flavor, "--programs", json.dumps(p),
+                        "--pin", ",".join(map(str, o)), "--kcap", "128", "--timeout", "600"] + extra, 1500)
+            try:
+                n = subprocess.run([exe, flavor, ";".join(",".join(item_txt(it) for it in th) for th in p), ",".join(map(str, o))], capture_output=True, text=True, timeout=60)
+                nat = json.loads(n.stdout.strip().splitlines()[-1]) if n.returncode == 0 else dict(error="native rc=%s %s" % (n.returncode, n.stderr[-200:]))
+            except Exception as e:  # noqa: BLE001
+                nat = dict(error=str(e))
+            out[i] = (d, nat)
+    ths = [threading.Thread(target=go, args=(i,) + c) for i, c in enumerate(cases)]
+    for th in ths:
+        th.start()
+    for th in ths:
+        th.join()
+    ok = 0
+    for (flavor, p, o), (d, nat) in zip(cases, out):
+        name = "%s: %s order %s" % (flavor, EV.prog_name(p), "".join(map(str, o)))
+        if d.get("verdict") != "pinned" or "error" in nat:
+            res["noverdict"].append(("sequential-validation " + name, "model: %s %s / native: %s" % (d.get("verdict"), d.get("detail"), nat)))
+            continue
+        fin = d["final"]
+        # try results in execution order
+        seen, tries = {}, []
+        for t in o:
+            j = seen.get(t, 0)
+            seen[t] = j + 1
+            if j < len(p[t]) and p[t][j] == "try":
+                tries.append(fin["tries"].get("%d.%d" % (t, j)))
+        mask = sum((1 << i) for i, c in enumerate(nat["woken"]) if c > 0)
+        diff = {}
+        if tries != nat["tries"]:
+            diff["tries"] = (tries, nat["tries"])
+        if fin["status"] != nat["status"]:
+            diff["status"] = (fin["status"], nat["status"])
+        if fin["woken_mask"] != mask:
+            diff["woken"] = (fin["woken_mask"], mask)
+        if fin["live_wakers"] != nat["live_wakers"]:
+            diff["live_wakers"] = (fin["live_wakers"], nat["live_wakers"])
+        if fin["stored"] != nat["stored"]:
+            diff["stored"] = (fin["stored"], nat["stored"])
+        if diff or fin.get("bad"):
+            res["noverdict"].append(("sequential-validation " + name, "model and real code disagree (model, native): %s bad=%s" % (diff, fin.get("bad"))))
+        else:
+            ok += 1
+    res["totals"]["traces_validated"] += ok
+    res["samples"].append(dict(engine="mirproto", kind="sequential translation validation (reset events)", cases=len(cases), agreeing=ok,
+                               compared=["try_wait results", "wait status per future", "woken wakers", "live waker clones", "stored signal"],
+                               example=dict(scenario=cases[0][0] + ": " + EV.prog_name(cases[0][1]), order=cases[0][2], model=out[0][0].get("final"), native=out[0][1])))
+    print("[mirproto] sequential validation against the real events: %d/%d orders agree" % (ok, len(cases)), flush=True)
 
 
 def first_blame(d):
